@@ -200,7 +200,35 @@ impl Check for C11 {
             dotfiles: rng.chance(2, 3),
             decoys: rng.chance(2, 3),
         };
-        let mut world = gen::split_tree(rng, entries, crlf, &tcfg);
+        let mut world = if rng.chance(1, 25) {
+            // a long chain: every file holds one or two entries and includes the next one,
+            // 12-40 files deep (nesting has no stated limit)
+            let depth = 12 + rng.usize(29);
+            let mut files: Vec<FileSpec> = Vec::new();
+            let mut it = entries.into_iter().peekable();
+            for k in 0..depth {
+                let path = if k == 0 { "/w/main.ledger".to_string() } else { format!("/w/chain/link{:02}.ledger", k) };
+                let mut f = FileSpec::new(&path);
+                f.crlf = crlf;
+                if let Some(e) = it.next() {
+                    f.push(e);
+                }
+                if k + 1 < depth {
+                    let rel = if k == 0 { format!("chain/link{:02}.ledger", k + 1) } else { format!("link{:02}.ledger", k + 1) };
+                    f.push(Entry::Include(rel));
+                } else {
+                    for e in it.by_ref() {
+                        f.push(e);
+                    }
+                }
+                files.push(f);
+            }
+            let mut w = World { files, extra: Default::default() };
+            gen::randomize_blanks(rng, &mut w);
+            w
+        } else {
+            gen::split_tree(rng, entries, crlf, &tcfg)
+        };
         // a file of (idempotent) declarations included from two places: the same file may be
         // loaded twice without being a cycle, and its entries are delivered twice
         if world.files.len() >= 2 && rng.chance(1, 5) {
